@@ -52,6 +52,7 @@ pub struct Lexer {
     possible_search_root: bool,
     after_open: bool,
     after_where: bool,
+    after_order: bool,
     after_operator: bool,
 }
 
@@ -65,6 +66,7 @@ impl Lexer {
             possible_search_root: false,
             after_open: false,
             after_where: false,
+            after_order: false,
             after_operator: false,
         }
     }
@@ -206,6 +208,7 @@ impl Lexer {
                 "from" => {
                     self.before_from = false;
                     self.after_where = false;
+                    self.after_order = false;
                     Some(Lexem::From)
                 }
                 "where" => {
@@ -215,7 +218,10 @@ impl Lexer {
                 "or" => Some(Lexem::Or),
                 "and" => Some(Lexem::And),
                 "not" if self.after_where => Some(Lexem::Not),
-                "order" => Some(Lexem::Order),
+                "order" => {
+                    self.after_order = true;
+                    Some(Lexem::Order)
+                }
                 "by" => Some(Lexem::By),
                 "asc" => self.next_lexem(),
                 "desc" => Some(Lexem::DescendingOrder),
@@ -238,9 +244,11 @@ impl Lexer {
 
     fn is_arithmetic_op_char(&self, c: char) -> bool {
         match c {
-            '+' | '-' => self.before_from || self.after_where,
+            '+' | '-' => self.before_from || self.after_where || self.after_order,
             '*' | '/' | '%' => {
-                (self.before_from || self.after_where) && !self.after_open && !self.after_operator
+                (self.before_from || self.after_where || self.after_order)
+                    && !self.after_open
+                    && !self.after_operator
             }
             _ => false,
         }
